@@ -96,3 +96,30 @@ Proof.
   - intros HP. apply Permutation_length_1 in HP. discriminate.
   - repeat split; vm_compute; reflexivity.
 Qed.
+
+(* roots are whole CIDs: a root list that differs from the file's only in the CODEC of one root
+   (same multihash) is not a permutation of it and is refused untouched -- the hypothesis of
+   C12_reject_roots on a two-root file, and the model's verdict *)
+Definition wit_cid_dagpb : bytes := match wit_cid with v :: _ :: t => v :: x70 :: t | l => l end.
+(* both parse, to the same multihash *)
+Definition c_mhcode_digest_same : Prop :=
+  match cid_parse wit_cid, cid_parse wit_cid_dagpb with
+  | Some p, Some q => c_mhcode p = c_mhcode q /\ c_digest p = c_digest q /\ c_codec p <> c_codec q
+  | _, _ => False
+  end.
+Example reject_example_same_multihash_other_codec :
+  exists s0, open_new KBlockstore wit_opts false [wit_root; wit_cid] [] = Ok s0 /\
+    let file := ws_file (end_seg CDiscard (run_puts s0 [(wit_cid, wit_data)])) in
+    c_mhcode_digest_same /\
+    ~ Permutation [wit_root; wit_cid] [wit_root; wit_cid_dagpb] /\
+    reopen dec_header_canon KBlockstore wit_opts false [wit_root; wit_cid_dagpb] file = inr (EOther, mkdev file [] []) /\
+    (* ... while a permutation of the file's roots is accepted *)
+    exists s2, reopen dec_header_canon KBlockstore wit_opts false [wit_cid; wit_root] file = inl s2.
+Proof.
+  eexists. split; [vm_compute; reflexivity|]. cbv zeta.
+  split; [vm_compute; repeat split; discriminate|].
+  split.
+  - intros HP. apply Permutation_sym in HP. apply (Permutation_in wit_cid_dagpb) in HP; [|right; left; reflexivity].
+    destruct HP as [H|[H|[]]]; vm_compute in H; discriminate.
+  - split; [vm_compute; reflexivity|]. eexists. vm_compute. reflexivity.
+Qed.
